@@ -61,13 +61,13 @@ func (eng) CoqRequire(mode string) string {
 func (eng) CoqCaseType(mode string) string { return "Check_align.case" }
 func (eng) CoqRun(mode string) string      { return "Check_align.run" }
 func (eng) Rule(mode string) string {
-	return "1..4 senders, 1..5 consecutive checkpoints, batch size 0(=1)..10, batch time-out on/off; every sender delivers HandleEventBatch calls through the real rpc adapters (rpc.OperatorEmbeddedClient, or rpc.OperatorConnectHandler with a connect.Request), one outstanding call per sender, batch boundaries drawn in four styles (single-event calls, short, long, cut at barriers: barrier first / in the middle / last, watermark or event right after a barrier in the same call); per-sender scripts of keyed events (unique ids, 3 subject keys, optional timer), per-sender increasing watermarks, barriers with increasing ids, occasional wrong-id barrier (alone in its call) while a checkpoint is in progress; in 40 % of the multi-runner cases some (never all) runners send SourceComplete at a random point and go on with watermarks and barriers only; in half of the cases the context of a parked call is cancelled (op cancel) while another runner's barrier is outstanding; in a third of the cases the sink (a connectors.SinkWriter wrapper; the handler emits one sink request per entry) fails its next Write, armed right before the handling of the last barrier while entries are pending (the flush in front of db.Checkpoint) or at random; in a quarter of the multi-runner cases HandleDeploy is called on the live operator in the middle of an alignment (no call outstanding, batch empty; same runners, fresh storage) and the new assembly reuses the aborted checkpoint id; a third of the delivered time-out tokens meet a handler that fails its next ProcessEventBatch call (op timeoutfail: the flush of the timed-out partial batch fails; observed: the event loop is still there, or Start returned); schedules drawn from the enabled actions (gate/wake/handle/fire/timeout) with five biases (uniform, eager senders, sequential, one laggard sender, late wake-ups) plus probe handles of senders that must be parked, some cut short mid-checkpoint. Non-trivial: at least one checkpoint reported and (a sender parked, or entries pending in the batch when the last barrier arrived, or an event passed the gate before a checkpoint started and was handled during it); distinct by hash of parameters and ops."
+	return "1..4 senders, 1..5 consecutive checkpoints, batch size 0(=1)..10, batch time-out on/off; every sender delivers HandleEventBatch calls through the real rpc adapters (rpc.OperatorEmbeddedClient, or rpc.OperatorConnectHandler with a connect.Request), one outstanding call per sender, batch boundaries drawn in four styles (single-event calls, short, long, cut at barriers: barrier first / in the middle / last, watermark or event right after a barrier in the same call); per-sender scripts of keyed events (unique ids, 3 subject keys, optional timer), per-sender increasing watermarks, barriers with increasing ids, occasional wrong-id barrier (alone in its call) while a checkpoint is in progress; in 40 % of the multi-runner cases some (never all) runners send SourceComplete at a random point and go on with watermarks and barriers only; in half of the cases the context of a parked call is cancelled (op cancel) while another runner's barrier is outstanding; in a third of the cases the sink (a connectors.SinkWriter wrapper; the handler emits one sink request per entry) fails its next Write at random points, and in a third the flush in front of db.Checkpoint fails (entries pending at the last barrier, nobody else with a call outstanding): either that sink write or the user handler's ProcessEventBatch call (op handlef); the barrier's reply must be the error, nothing may be cut, and the assembly is redeployed and delivers the checkpoint with the same id again; in a quarter of the multi-runner cases HandleDeploy is called on the live operator in the middle of an alignment (no call outstanding, batch empty; same runners, fresh storage) and the new assembly reuses the aborted checkpoint id; a third of the delivered time-out tokens meet a handler that fails its next ProcessEventBatch call (op timeoutfail: the flush of the timed-out partial batch fails; observed: the event loop is still there, or Start returned); schedules drawn from the enabled actions (gate/wake/handle/fire/timeout) with five biases (uniform, eager senders, sequential, one laggard sender, late wake-ups) plus probe handles of senders that must be parked, some cut short mid-checkpoint. Non-trivial: at least one checkpoint reported and (a sender parked, or entries pending in the batch when the last barrier arrived, or an event passed the gate before a checkpoint started and was handled during it); distinct by hash of parameters and ops."
 }
 
 // ---------- case format ----------
 
 type op struct {
-	Act  string `json:"act"` // gate | wake | handle | fire | timeout | timeoutfail | cancel | fault | redeploy
+	Act  string `json:"act"` // gate | wake | handle | handlef | fire | timeout | timeoutfail | cancel | fault | redeploy
 	S    int    `json:"s"`
 	Kind string `json:"kind,omitempty"` // ev | wm | bar | done (gate only)
 	ID   uint64 `json:"id,omitempty"`
@@ -217,6 +217,7 @@ func genCase(r *hx.Rand, idx int, tier string) *hx.Case {
 	}
 	nRedeploy := 0
 	tfCase, tfDone := delay && r.Chance(1, 4), false
+	hfaults := r.Chance(1, 2) // handler failures on the flush in front of the cut
 	// the generator's estimate of "the operator's batch is certainly empty" (same rule as the executor's)
 	msz := maxSize
 	if msz == 0 {
@@ -252,6 +253,26 @@ func genCase(r *hx.Rand, idx int, tier string) *hx.Case {
 			mode[s] = mPassed
 		}
 		inflight[s] = it
+	}
+	// HandleDeploy on the live operator; the runners whose barrier of the aborted checkpoint was in deliver (some
+	// events and) a barrier with the same id again
+	doRedeploy := func() {
+		emit(op{Act: "redeploy"})
+		for i := 0; i < n; i++ {
+			if missing != nil && missing[i] {
+				continue
+			}
+			var ins []gItem
+			for k := r.Intn(3); k > 0; k-- {
+				ins = append(ins, gItem{o: op{Act: "gate", S: i, Kind: "ev", ID: nextID, Key: uint64(r.Range(1, 3))}})
+				nextID++
+			}
+			ins = append(ins, gItem{o: op{Act: "gate", S: i, Kind: "bar", Cid: curCid}})
+			scripts[i] = append(append(append([]gItem{}, scripts[i][:pos[i]]...), ins...), scripts[i][pos[i]:]...)
+		}
+		missing = nil
+		gTimers = false
+		gPend, gUnknown = 0, false
 	}
 	for steps := 0; steps < 2000; steps++ {
 		type cand struct {
@@ -392,11 +413,41 @@ func genCase(r *hx.Rand, idx int, tier string) *hx.Case {
 		case "handle":
 			it := inflight[s]
 			completes := it.o.Kind == "bar" && !it.wrong && ((missing == nil && n == 1) || (missing != nil && len(missing) == 1 && missing[s]))
-			if faults && completes && gPend > 0 && !gUnknown && r.Chance(1, 2) {
-				emit(op{Act: "fault"}) // the sink write of the flush in front of db.Checkpoint fails
+			// the flush in front of db.Checkpoint fails (the handler, or the sink write): the barrier's reply is that error,
+			// nothing is cut, the assembly is redeployed and delivers the checkpoint with the same id again. Scheduled
+			// when entries are pending and nobody else has a call outstanding (the redeploy needs that).
+			failCut := ""
+			if completes && gPend > 0 && !gUnknown && (faults || hfaults) && r.Chance(1, 2) {
+				othersIdle := true
+				for i := 0; i < n; i++ {
+					othersIdle = othersIdle && (i == s || (mode[i] == mIdle && len(queue[i]) == 0))
+				}
+				if othersIdle {
+					failCut = "handler"
+					if faults && (!hfaults || r.Chance(1, 3)) {
+						failCut = "sink"
+					}
+				}
 			}
-			emit(op{Act: "handle", S: s})
+			switch failCut {
+			case "sink":
+				emit(op{Act: "fault"})
+				emit(op{Act: "handle", S: s})
+			case "handler":
+				emit(op{Act: "handlef", S: s})
+			default:
+				emit(op{Act: "handle", S: s})
+			}
 			mode[s] = mIdle
+			if failCut != "" {
+				if missing == nil {
+					curCid = it.o.Cid
+				}
+				missing = map[int]bool{} // every barrier is registered, nothing was cut
+				queue[s] = nil           // the error reply ends the sender's call
+				doRedeploy()
+				continue
+			}
 			switch it.o.Kind {
 			case "ev":
 				if it.o.Tm != 0 {
@@ -442,22 +493,8 @@ func genCase(r *hx.Rand, idx int, tier string) *hx.Case {
 					idle = idle && mode[i] == mIdle && len(queue[i]) == 0
 				}
 				if idle {
-					emit(op{Act: "redeploy"})
 					nRedeploy++
-					for i := 0; i < n; i++ {
-						if missing[i] {
-							continue
-						}
-						var ins []gItem
-						for k := r.Intn(3); k > 0; k-- {
-							ins = append(ins, gItem{o: op{Act: "gate", S: i, Kind: "ev", ID: nextID, Key: uint64(r.Range(1, 3))}})
-							nextID++
-						}
-						ins = append(ins, gItem{o: op{Act: "gate", S: i, Kind: "bar", Cid: curCid}})
-						scripts[i] = append(append(append([]gItem{}, scripts[i][:pos[i]]...), ins...), scripts[i][pos[i]:]...)
-					}
-					missing = nil
-					gTimers = false
+					doRedeploy()
 				}
 			}
 		}
@@ -927,13 +964,23 @@ func (eng) Execute(mode string, c *hx.Case) (*hx.Result, error) {
 	}
 	// HandleEvent of sender si's current event returned
 	faultWasArmed := false // at the start of the current action
+	handleHF := false
+	var lastErr error
+	failedCut := false // a pre-checkpoint flush failed: only redeploy / fault / fire are executed until the redeploy
 	handled := func(si int, err error, evs []evRec, before int) {
 		s := snd[si]
 		if err != nil && s.cur.Kind != "bar" {
 			tags["sink-error-reply"] = true
 		}
 		et, ej := evSplit(evs)
-		obs = append(obs, fmt.Sprintf("OHandle %d%%nat %s %s", si, hx.CoqBool(err == nil), et))
+		obs = append(obs, fmt.Sprintf("OHandle %s %d%%nat %s %s", hx.CoqBool(handleHF), si, hx.CoqBool(err == nil), et))
+		lastErr = err
+		if s.cur.Kind == "bar" && err != nil && faultWasArmed && !sink.armed.Load() {
+			// the sink failed on the flush in front of the cut: the barrier's reply is that error, nothing was cut
+			failedCut = true
+			pend, pendUnknown = 0, false
+			tags["sink-failure-at-pre-checkpoint-flush"] = true
+		}
 		var es any
 		if err != nil {
 			es = err.Error()
@@ -1010,6 +1057,9 @@ func (eng) Execute(mode string, c *hx.Case) (*hx.Result, error) {
 		if o.S < 0 || o.S >= n {
 			continue
 		}
+		if failedCut && o.Act != "redeploy" && o.Act != "fault" && o.Act != "fire" {
+			continue
+		}
 		// a sender released although no checkpoint completion was reported (never on a correct operator)
 		anyParked := false
 		for _, s := range snd {
@@ -1021,7 +1071,7 @@ func (eng) Execute(mode string, c *hx.Case) (*hx.Result, error) {
 			time.Sleep(300 * time.Microsecond) // not a synchronisation: only raises the chance to see a premature release
 		}
 		for i, s := range snd {
-			if s.mode == 1 && s.parkCk == rec.completions() {
+			if !failedCut && s.mode == 1 && s.parkCk == rec.completions() {
 				select {
 				case <-s.sig:
 					earlyWake(i)
@@ -1096,9 +1146,16 @@ func (eng) Execute(mode string, c *hx.Case) (*hx.Result, error) {
 				stuck(2, o)
 				aborted = true
 			}
-		case "handle":
+		case "handle", "handlef":
 			if s.mode != 2 {
 				continue
+			}
+			// handlef: the user handler fails its next call if it comes while this barrier is handled, i.e. on the
+			// flush in front of db.Checkpoint (for anything but a barrier handlef is a plain handle)
+			hf := o.Act == "handlef" && s.cur.Kind == "bar"
+			handleHF = hf
+			if hf {
+				handler.failNext.Store(true)
 			}
 			before := rec.completions()
 			s.release <- struct{}{}
@@ -1156,7 +1213,22 @@ func (eng) Execute(mode string, c *hx.Case) (*hx.Result, error) {
 				stuck(3, o)
 				aborted = true
 			}
+			if hf && !handler.failNext.Swap(false) {
+				pend, pendUnknown = 0, false
+				if lastErr != nil {
+					// the flush in front of the cut failed and the barrier's sender got the error: the assembly is torn
+					// down; until the redeploy nothing else is scheduled
+					failedCut = true
+					tags["handler-failure-at-pre-checkpoint-flush"] = true
+				} else {
+					tags["HANDLER-FAILURE-AT-PRE-CHECKPOINT-FLUSH-IGNORED"] = true
+				}
+			}
+			handleHF = false
 		case "cancel":
+			if failedCut {
+				continue
+			}
 			// cancel the context of a parked call. The sender must stay parked: the grace period is not a
 			// synchronisation, it only gives an implementation that lets the sender go the time to show it.
 			if s.mode != 1 || s.parkCk < rec.completions() {
@@ -1196,6 +1268,7 @@ func (eng) Execute(mode string, c *hx.Case) (*hx.Result, error) {
 			if !idle || pend > 0 || pendUnknown {
 				continue
 			}
+			failedCut = false
 			nDeploy++
 			job.dir = filepath.Join(dir, fmt.Sprintf("d%d", nDeploy))
 			if err := opr.HandleDeploy(ctx, &workerpb.DeployOperatorRequest{
@@ -1306,7 +1379,21 @@ func (eng) Execute(mode string, c *hx.Case) (*hx.Result, error) {
 	return &hx.Result{Term: term, Nontrivial: nCk > 0 && (nParkAtCk > 0 || nPendAtCk > 0 || nInflightAtCk > 0), Tags: tg, Observed: jobs}, nil
 }
 
+// scratch directories of cases whose process was killed (hang / panic under a broken implementation) are never
+// removed by their own defer: sweep the old ones
+func sweepStale() {
+	for _, base := range []string{"/dev/shm", os.TempDir()} {
+		ms, _ := filepath.Glob(filepath.Join(base, "verif-align-*"))
+		for _, m := range ms {
+			if fi, err := os.Stat(m); err == nil && time.Since(fi.ModTime()) > 20*time.Minute {
+				os.RemoveAll(m)
+			}
+		}
+	}
+}
+
 func main() {
+	sweepStale()
 	slog.SetDefault(slog.New(slog.NewTextHandler(io.Discard, nil)))
 	hx.Main(eng{})
 }
